@@ -1,9 +1,11 @@
 package props
 
 import (
+	"encoding/hex"
 	"fmt"
 	"sort"
 	"strings"
+	"unicode/utf8"
 
 	"verif/internal/sl"
 )
@@ -14,12 +16,28 @@ import (
 
 // c13Cfg is one configuration of the pool.
 type c13Cfg struct {
-	Idx    int               `json:"idx"`
-	Name   string            `json:"name"` // family/role
-	Family string            `json:"family"`
-	Role   string            `json:"role"`
-	Text   string            `json:"text"`
-	Files  map[string]string `json:"files,omitempty"` // content of the fs.FS root handed to WithRootFS
+	Idx    int    `json:"idx"`
+	Name   string `json:"name"` // family/role
+	Family string `json:"family"`
+	Role   string `json:"role"`
+	Text   string `json:"text"`
+	// TextHex is set (and Text is then only a readable rendering) when the directives contain bytes
+	// that are not valid UTF-8, so that a recorded case stays byte-exact.
+	TextHex string            `json:"text_hex,omitempty"`
+	Files   map[string]string `json:"files,omitempty"` // content of the fs.FS root handed to WithRootFS
+	// Kin marks the configurations of the second-round families: their systematic pair histories are
+	// enumerated inside their own family only (the texts of different families never look alike).
+	Kin bool `json:"kin,omitempty"`
+}
+
+// directives returns the byte-exact configuration text.
+func (c *c13Cfg) directives() string {
+	if c.TextHex != "" {
+		if b, err := hex.DecodeString(c.TextHex); err == nil {
+			return string(b)
+		}
+	}
+	return c.Text
 }
 
 // c13Probe is one probe request.
@@ -27,7 +45,7 @@ type c13Probe struct {
 	Path    string  `json:"path"`
 	Headers []sl.KV `json:"headers,omitempty"`
 	Args    []sl.KV `json:"args,omitempty"`
-	Status int     `json:"status"`
+	Status  int     `json:"status"`
 }
 
 type c13Family struct {
@@ -35,7 +53,13 @@ type c13Family struct {
 	// T is the shared text. M is a value the text matches when read as a regular expression,
 	// MKey an argument NAME it matches (lower case), RxPat the @rx pattern of the rx-on/rx-off roles.
 	T, M, MKey, RxPat string
-	Roles             []string
+	// T2 is a text that a careless key normalisation would identify with T (other letter case, Unicode
+	// case folding, different invalid bytes) although the compiled objects behave differently: roles with
+	// the suffix "-alt" use T2 where the plain role uses T.
+	T2    string
+	Roles []string
+	// Kin families (second round) are paired systematically inside the family only.
+	Kin bool
 }
 
 const (
@@ -74,9 +98,62 @@ var c13Families = []c13Family{
 	{Name: "prefilter", T: `(?i)\A\sab`, M: " aB", MKey: "ab", RxPat: `(?i)\A\sab`, Roles: []string{"rx-on", "rx-off", "validatenid"}},
 }
 
-// c13RoleBase strips the content variant (-a/-b) from a role name.
+// Second round: families whose members agree on the text that looks like a cache key and differ in
+// another parameter that decides behaviour (country code of @validateNid, letter case that only one of
+// the two normalisations folds, invalid bytes, template vs literal reading of the same text, schema /
+// word-list file of one name under different roots or directories, data set of one name with other
+// contents). A cache that keys one of these objects by the text alone hands out the twin's object.
+const (
+	c13SchemaA = `{"type":"object","properties":{"a":{"type":"integer"}},"required":["a"]}`
+	c13SchemaB = `{"type":"object","properties":{"a":{"type":"string"}},"required":["a"]}`
+)
+
+var c13KinFamilies = []c13Family{
+	// one candidate expression, two check-digit algorithms
+	{Name: "nid", Kin: true, T: `[0-9.-]{9,12}`,
+		Roles: []string{"validatenid", "validatenid-us", "validatenid-both", "regexkey", "pm"}},
+	// equal under Unicode lower-casing, different under the ASCII folding the matchers really apply
+	{Name: "unicode", Kin: true, T: "CAF\u00c9", T2: "caf\u00e9", RxPat: "CAF\u00c9",
+		Roles: []string{"pm", "pm-alt", "cdataset", "cdataset-alt", "cfile", "cfile-alt", "regexkey", "regexkey-alt", "argrestpath", "argrestpath-alt", "rx-on", "rx-on-alt"}},
+	{Name: "unicode-words", Kin: true, T: "CAF\u00c9 bistro", T2: "caf\u00e9 bistro",
+		Roles: []string{"pm", "pm-alt", "pm-both", "cdataset", "cdataset-alt", "cfile", "cfile-alt"}},
+	// equal under ASCII lower-casing: the same phrase list for @pm (a legitimately shared entry), different
+	// regular expressions for everything that compiles the text as a pattern
+	{Name: "asciicase", Kin: true, T: `Alpha[0-9]`, T2: `alpha[0-9]`, RxPat: `Alpha[0-9]`,
+		Roles: []string{"regexkey", "regexkey-alt", "ctl", "ctl-alt", "restpath", "restpath-alt", "rx-on", "rx-on-alt", "pm", "pm-alt",
+			"cdataset", "cdataset-alt", "cfile", "cfile-alt"}},
+	// phrase lists that differ in one invalid byte (both become U+FFFD under strings.ToLower / ToValidUTF8)
+	{Name: "rawbytes", Kin: true, T: "al\xffha", T2: "al\xfeha",
+		Roles: []string{"pm", "pm-alt", "pm-both", "cdataset", "cdataset-alt"}},
+	// the same for byte patterns (compiled by the binary engine under @rx)
+	{Name: "binarycase", Kin: true, T: `Al\xffha`, T2: `al\xffha`, RxPat: `Al\xffha`,
+		Roles: []string{"binrx", "binrx-alt"}},
+	// phrase lists that differ in the number of blanks between two words: the second blank makes an empty
+	// phrase, which matches every value (a key built from the fields of the text identifies the two)
+	{Name: "spacing", Kin: true, T: "alpha  beta", T2: "alpha beta",
+		Roles: []string{"pm", "pm-alt", "pm-both"}},
+	// @restpath rewrites its argument into a pattern before compiling it; the other roles compile the text as it is
+	{Name: "template", Kin: true, T: `x{id}y`,
+		Roles: []string{"restpath", "regexkey", "regexexcl", "ctl"}},
+	// a schema file and a word-list file of the same name under different roots
+	{Name: "schema", Kin: true, T: "alpha.json",
+		Roles: []string{"schema-a", "schema-b", "file-a", "file-b", "pm"}},
+}
+
+// c13ExtraRoles are second-round roles of first-round families (appended after everything else so that
+// the indices of the first-round configurations stay what they were).
+var c13ExtraRoles = []struct {
+	Family string
+	Roles  []string
+}{
+	// the same file name resolved against the directory of the including configuration file (one root),
+	// a data set of network addresses under one name with different contents
+	{Family: "word", Roles: []string{"filedir-a", "filedir-b", "ipdataset-a", "ipdataset-b"}},
+}
+
+// c13RoleBase strips the content variant (-a/-b) or text variant (-alt) from a role name.
 func c13RoleBase(role string) string {
-	for _, suf := range []string{"-a", "-b"} {
+	for _, suf := range []string{"-a", "-b", "-alt"} {
 		if strings.HasSuffix(role, suf) {
 			return strings.TrimSuffix(role, suf)
 		}
@@ -87,7 +164,21 @@ func c13RoleBase(role string) string {
 // c13ResourceKind names the kind of shared resource two roles compete for: used as the violation class suffix.
 func c13ResourceKind(a, b string) string {
 	ba, bb := c13RoleBase(a), c13RoleBase(b)
+	if ba == bb && strings.HasSuffix(a, "-alt") != strings.HasSuffix(b, "-alt") {
+		return ba + "-near-equal-text"
+	}
+	if strings.HasPrefix(ba, "validatenid") && strings.HasPrefix(bb, "validatenid") && ba != bb {
+		return "validatenid-country-code"
+	}
 	if ba == bb {
+		switch ba {
+		case "filedir":
+			return "file-name-different-dir"
+		case "ipdataset":
+			return "ipdataset-name"
+		case "schema":
+			return "schema-name-different-root"
+		}
 		switch ba {
 		case "dataset", "dataset-redef":
 			return "dataset-name"
@@ -112,11 +203,61 @@ func c13ResourceKind(a, b string) string {
 }
 
 func c13RoleText(f *c13Family, role string) (string, map[string]string) {
-	T := f.T
+	T, rxPat := f.T, f.RxPat
+	if strings.HasSuffix(role, "-alt") {
+		role = strings.TrimSuffix(role, "-alt")
+		T, rxPat = f.T2, f.T2
+	}
 	var sb strings.Builder
 	sb.WriteString("SecRuleEngine On\n")
 	var files map[string]string
 	switch role {
+	case "pm-both":
+		// one configuration with both near-equal lists
+		fmt.Fprintf(&sb, "SecRule ARGS:p \"@pm %s\" \"id:1,phase:1,pass,capture\"\n", f.T)
+		fmt.Fprintf(&sb, "SecRule ARGS:p \"@pm %s\" \"id:2,phase:1,pass,capture\"\n", f.T2)
+	case "argrestpath":
+		// @restpath on an argument value (REQUEST_URI is percent-encoded again by the engine, so that a
+		// non-ASCII template can never match there)
+		fmt.Fprintf(&sb, "SecRule ARGS:p \"@restpath %s\" \"id:1,phase:1,pass\"\n", T)
+	case "validatenid-us":
+		fmt.Fprintf(&sb, "SecRule ARGS:p \"@validateNid us %s\" \"id:1,phase:1,pass,capture\"\n", T)
+	case "validatenid-both":
+		// one configuration that applies both algorithms to the same expression
+		fmt.Fprintf(&sb, "SecRule ARGS:p \"@validateNid cl %s\" \"id:1,phase:1,pass,capture\"\n", T)
+		fmt.Fprintf(&sb, "SecRule ARGS:p \"@validateNid us %s\" \"id:2,phase:1,pass,capture\"\n", T)
+	case "cdataset":
+		// the text is the CONTENT of a data set (one phrase per line) under a fixed name
+		fmt.Fprintf(&sb, "SecDataset words `\n%s\n`\n", strings.ReplaceAll(T, " ", "\n"))
+		sb.WriteString("SecRule ARGS:p \"@pmFromDataset words\" \"id:1,phase:1,pass,capture\"\n")
+	case "cfile":
+		// the text is the CONTENT of a phrase file under a fixed name
+		files = map[string]string{"words.data": strings.ReplaceAll(T, " ", "\n") + "\n"}
+		sb.WriteString("SecRule ARGS:p \"@pmFromFile words.data\" \"id:1,phase:1,pass,capture\"\n")
+	case "filedir-a", "filedir-b":
+		// ONE root for both variants; the relative file name is resolved against the directory of the
+		// configuration file that contains the rule
+		dir := "d1"
+		if role == "filedir-b" {
+			dir = "d2"
+		}
+		rule := fmt.Sprintf("SecRule ARGS:p \"@pmFromFile %s\" \"id:1,phase:1,pass,capture\"\n", T)
+		files = map[string]string{"d1/" + T: c13WordsA, "d2/" + T: c13WordsB, "d1/rules.conf": rule, "d2/rules.conf": rule}
+		fmt.Fprintf(&sb, "Include %s/rules.conf\n", dir)
+	case "ipdataset-a", "ipdataset-b":
+		nets := c13NetA
+		if role == "ipdataset-b" {
+			nets = c13NetB
+		}
+		fmt.Fprintf(&sb, "SecDataset %s `\n%s`\n", T, nets)
+		fmt.Fprintf(&sb, "SecRule ARGS:p \"@ipMatchFromDataset %s\" \"id:1,phase:1,pass\"\n", T)
+	case "schema-a", "schema-b":
+		schema := c13SchemaA
+		if role == "schema-b" {
+			schema = c13SchemaB
+		}
+		files = map[string]string{T: schema}
+		fmt.Fprintf(&sb, "SecRule ARGS:p \"@validateSchema %s\" \"id:1,phase:1,pass\"\n", T)
 	case "pm":
 		fmt.Fprintf(&sb, "SecRule ARGS:p \"@pm %s\" \"id:1,phase:1,pass,capture\"\n", T)
 	case "regexkey":
@@ -171,9 +312,9 @@ func c13RoleText(f *c13Family, role string) (string, map[string]string) {
 			flag = "Off"
 		}
 		fmt.Fprintf(&sb, "SecRxPreFilter %s\n", flag)
-		fmt.Fprintf(&sb, "SecRule ARGS:p \"@rx %s\" \"id:1,phase:1,pass,capture\"\n", f.RxPat)
+		fmt.Fprintf(&sb, "SecRule ARGS:p \"@rx %s\" \"id:1,phase:1,pass,capture\"\n", rxPat)
 	case "binrx":
-		fmt.Fprintf(&sb, "SecRule ARGS:p \"@rx %s\" \"id:1,phase:1,pass,capture\"\n", f.RxPat)
+		fmt.Fprintf(&sb, "SecRule ARGS:p \"@rx %s\" \"id:1,phase:1,pass,capture\"\n", rxPat)
 	default:
 		panic("c13: unknown role " + role)
 	}
@@ -184,14 +325,37 @@ func c13RoleText(f *c13Family, role string) (string, map[string]string) {
 // for a given version of this file, and violation cases embed the configurations they use).
 func c13Pool() []*c13Cfg {
 	var out []*c13Cfg
+	add := func(f *c13Family, role string, kin bool) {
+		text, files := c13RoleText(f, role)
+		c := &c13Cfg{Idx: len(out), Name: f.Name + "/" + role, Family: f.Name, Role: role, Text: text, Files: files, Kin: kin}
+		if !utf8.ValidString(text) {
+			c.TextHex = hex.EncodeToString([]byte(text))
+			c.Text = strings.ToValidUTF8(text, "\uFFFD")
+		}
+		out = append(out, c)
+	}
 	for fi := range c13Families {
-		f := &c13Families[fi]
-		for _, role := range f.Roles {
-			text, files := c13RoleText(f, role)
-			out = append(out, &c13Cfg{Idx: len(out), Name: f.Name + "/" + role, Family: f.Name, Role: role, Text: text, Files: files})
+		for _, role := range c13Families[fi].Roles {
+			add(&c13Families[fi], role, false)
+		}
+	}
+	for fi := range c13KinFamilies {
+		for _, role := range c13KinFamilies[fi].Roles {
+			add(&c13KinFamilies[fi], role, true)
+		}
+	}
+	for _, x := range c13ExtraRoles {
+		for _, role := range x.Roles {
+			add(c13FamilyByName(x.Family), role, true)
 		}
 	}
 	return out
+}
+
+// c13SystematicPair says whether the ordered pair (a, b) has its two systematic histories: every pair of
+// first-round configurations, and every pair inside one family as soon as a second-round one takes part.
+func c13SystematicPair(a, b *c13Cfg) bool {
+	return (!a.Kin && !b.Kin) || a.Family == b.Family
 }
 
 func c13FamilyByName(name string) *c13Family {
@@ -200,7 +364,26 @@ func c13FamilyByName(name string) *c13Family {
 			return &c13Families[i]
 		}
 	}
+	for i := range c13KinFamilies {
+		if c13KinFamilies[i].Name == name {
+			return &c13KinFamilies[i]
+		}
+	}
 	return nil
+}
+
+// c13Twins says whether two configurations of one family agree on the text that looks like the cache
+// key and differ in exactly one other parameter that is meant to change behaviour (country code, letter
+// case / bytes of a near-equal text, content behind one name). Evidence only: the probes of a battery
+// are expected to tell twins apart (twin_pairs_discriminated); where they cannot the pair is listed.
+func c13Twins(a, b *c13Cfg) bool {
+	if a.Family != b.Family || a.Idx == b.Idx {
+		return false
+	}
+	if c13RoleBase(a.Role) == c13RoleBase(b.Role) && a.Role != b.Role {
+		return true
+	}
+	return strings.HasPrefix(a.Role, "validatenid") && strings.HasPrefix(b.Role, "validatenid")
 }
 
 // c13Battery is the list of probe requests of a family: every configuration of the family is probed
@@ -210,6 +393,54 @@ func c13FamilyByName(name string) *c13Family {
 func c13Battery(family string) []c13Probe {
 	f := c13FamilyByName(family)
 	kv := func(k, v string) []sl.KV { return []sl.KV{{K: k, V: v}} }
+	pv := func(vals ...string) []c13Probe {
+		var out []c13Probe
+		for _, v := range vals {
+			out = append(out, c13Probe{Path: "/", Args: kv("p", v), Status: 200})
+		}
+		return out
+	}
+	names := func(ns ...string) []c13Probe { // an argument of that NAME next to an unrelated one, and alone
+		var out []c13Probe
+		for _, n := range ns {
+			out = append(out, c13Probe{Path: "/", Args: []sl.KV{{K: n, V: "v"}, {K: "other", V: "v"}}, Status: 200})
+			out = append(out, c13Probe{Path: "/", Args: kv(n, "v"), Status: 200})
+		}
+		return out
+	}
+	paths := func(ps ...string) []c13Probe {
+		var out []c13Probe
+		for _, p := range ps {
+			out = append(out, c13Probe{Path: p, Args: kv("q", "v"), Status: 200})
+		}
+		return out
+	}
+	switch family {
+	case "nid":
+		// a valid RUT that is no valid SSN, a valid SSN that is no valid RUT, one valid as both, one valid as neither
+		return append(pv("11.111.111-1", "078-05-1120", "12.345.678-5", "123-45-6789", "x 11.111.111-1 y 078-05-1120 z", f.T),
+			names("1234567890", "12345")...)
+	case "unicode", "unicode-words":
+		ps := pv("un caf\u00e9 noir", "UN CAF\u00c9 NOIR", "un caf\u00c9 noir", "un cafe noir", "le bistro", f.T, f.T2)
+		ps = append(ps, names("CAF\u00c9", "caf\u00e9")...)
+		return append(ps, paths("/CAF\u00c9", "/caf\u00e9")...)
+	case "asciicase":
+		ps := pv("Alpha1", "alpha1", "ALPHA1", "x alpha[0-9] y", "x ALPHA[0-9] y")
+		ps = append(ps, names("Alpha1", "alpha1")...)
+		return append(ps, paths("/Alpha1", "/alpha1")...)
+	case "binarycase":
+		return pv("Al\xffha", "al\xffha", "AL\xffHA", "alha")
+	case "spacing":
+		return pv("x alpha y", "x beta y", "zzz", "", "alpha  beta")
+	case "rawbytes":
+		return pv(f.T, f.T2, "x "+f.T+" y "+f.T2, "al\ufffdha", "alha")
+	case "template":
+		ps := names("x{id}y", "x123y", "xy")
+		ps = append(ps, paths("/x123y", "/x%7Bid%7Dy", "/x{id}y", "/xy")...)
+		return append(ps, pv("v")...)
+	case "schema":
+		return pv(`{"a":1}`, `{"a":"x"}`, `{"b":1}`, "not json", "x wone y", "x wthree y", f.T)
+	}
 	ps := []c13Probe{
 		{Path: "/", Args: kv("p", f.T), Status: 200},
 		{Path: "/", Args: kv("p", "x wone y"), Status: 200},
